@@ -39,7 +39,13 @@ RULE = ("secrets: boundary values (1, 2, 3, n-1, n-2, 2^128±1, 2^255±1) and PR
         "different messages under the same aux, interleaved and repeated; one SchnorrSignature object — as returned "
         "by sign_schnorr and as parsed — verified 5-6 times against right/altered messages and right/other keys, "
         "right-first and wrong-first), every step compared with the stateless model and specification on the CURRENT "
-        "arguments.  Non-trivial = not "
+        "arguments, and the observable state of every shared object (secret, point coordinates/parity, even_secret(), "
+        "R, s) compared with its initial snapshot after every step; signatures CONSTRUCTED from the BIP340 equations "
+        "with chosen nonces (1, 2, 7, n-1, d, n-d, 2d, d+1, sha256(m), random) must be accepted, their bit flips and "
+        "the s = e·d signature (infinite result) rejected; keys that lift_x refuses (00…00, x ≥ p, x off the curve) "
+        "with signatures x(s·G) ‖ s that would verify if the key were taken for infinity; an odd-Y PrivateKey whose "
+        "own point object rejects tampered signatures (odd-y result, x mismatch, infinite result) and then signs "
+        "again.  Non-trivial = not "
         "rejected by a length/range check alone; distinct = distinct request lines")
 CLAUSES = {
     "tagged hashes (cache transparency)": "proved (taggedHash_cache_transparent, taggedHash_invariant, tags)",
@@ -54,6 +60,8 @@ CLAUSES = {
         "proved (verifySchnorr_eq_spec; parse_sound, parse_rejects_s_ge_n, parse_rejects_r_ge_p, parse_rejects_non_x, "
         "mkSig_rejects)",
     "lift_x": "proved (liftX_complete, liftX_sound, parseXonly_is_liftX)",
+    "the all-zero key (read as infinity by the code) and every key lift_x refuses are rejected":
+        "proved (verify_rejects_zero_key, verifySchnorr_eq_spec with liftX_sound)",
     "64-byte codec": "proved (parse_serialize, serialize_parse, parse_sound)",
 }
 TRUSTED = ["SHA-256 is a parameter of every theorem; the driver instantiates it with Buidl.Model.Hash.SHA256 (checked "
@@ -142,44 +150,119 @@ def _impl(t):
     raise UnknownOp(op)
 
 
+def _snap(o):
+    """observable state of a PrivateKey / S256Point / SchnorrSignature object"""
+    import buidl.ecc as E
+    if isinstance(o, E.PrivateKey):
+        return ("sk", o.secret, _snap(o.point), o.even_secret())
+    if isinstance(o, E.SchnorrSignature):
+        return ("sig", _snap(o.r), o.s)
+    if o.x is None:
+        return ("inf",)
+    return ("pt", o.x.num, o.y.num, getattr(o, "parity", None))
+
+
 def impl_history(lines):
     """evaluate request lines in order in ONE process on SHARED objects — one PrivateKey per secret, one S256Point
     per key encoding (the `.point` of the PrivateKey when a signing step created it), one SchnorrSignature object per
     64-byte string (the object returned by sign_schnorr, which has already been self-verified, when an earlier step
     produced that string; otherwise the parsed object).  TAG_HASH_CACHE is shared as well.  Stale state kept on any
-    of these between calls shows up as an answer that differs from the stateless model / specification."""
+    of these between calls shows up as an answer that differs from the stateless model / specification.
+    "Signing and verification do not modify their arguments": the observable state of every pooled object (secret,
+    point coordinates and parity, even_secret(), R and s) is snapshotted when the object enters the pool and compared
+    after every step; a change is appended to the step's answer as ` STATE-CHANGED …` (so it can never equal the
+    model's answer)."""
     import buidl.ecc as E
-    pool, out = {}, []
+    pool, snap0, out = {}, {}, []
+
+    def put(key, obj):
+        if key not in pool:
+            pool[key] = obj
+            try:
+                snap0[key] = _snap(obj)
+            except Exception:
+                snap0[key] = ("unsnappable",)
+        return pool[key]
+
     for line in lines:
         t = line.split(" ")
         try:
             op = t[0]
             if op in ("schnorr_sign", "spec_sign", "bip340k"):
                 if ("sk", t[1]) not in pool:
-                    pk = pool[("sk", t[1])] = E.PrivateKey(int(t[1]))
-                    pool.setdefault(("pt", xb(pk.point.xonly())), pk.point)
-                    pool.setdefault(("pt", xb(pk.point.sec())), pk.point)
+                    pk = put(("sk", t[1]), E.PrivateKey(int(t[1])))
+                    put(("pt", xb(pk.point.xonly())), pk.point)
+                    put(("pt", xb(pk.point.sec())), pk.point)
                 pk = pool[("sk", t[1])]
                 if op == "bip340k":
-                    out.append(str(pk.bip340_k(unx(t[2]), _aux(t[3]))))
+                    ans = str(pk.bip340_k(unx(t[2]), _aux(t[3])))
                 else:
                     sig = pk.sign_schnorr(unx(t[2]), _aux(t[3]))
                     raw = sig.serialize()
-                    pool.setdefault(("sig", xb(raw)), sig)
-                    out.append(xb(raw))
+                    put(("sig", xb(raw)), sig)
+                    ans = xb(raw)
             elif op in ("schnorr_verify", "spec_verify"):
                 if ("pt", t[1]) not in pool:
-                    pool[("pt", t[1])] = E.S256Point.parse(unx(t[1]))
+                    put(("pt", t[1]), E.S256Point.parse(unx(t[1])))
                 if ("sig", t[3]) not in pool:
-                    pool[("sig", t[3])] = E.SchnorrSignature.parse(unx(t[3]))
-                out.append("1" if pool[("pt", t[1])].verify_schnorr(unx(t[2]), pool[("sig", t[3])]) is True else REJECT)
+                    put(("sig", t[3]), E.SchnorrSignature.parse(unx(t[3])))
+                ans = "1" if pool[("pt", t[1])].verify_schnorr(unx(t[2]), pool[("sig", t[3])]) is True else REJECT
             else:
-                out.append(_impl(t))
+                ans = _impl(t)
         except UnknownOp:
             raise
         except Exception:
-            out.append(REJECT)
+            ans = REJECT
+        changed = []
+        for key, obj in pool.items():
+            try:
+                now = _snap(obj)
+            except Exception:
+                now = ("unsnappable",)
+            if now != snap0[key]:
+                changed.append(f"{key[0]}:{str(key[1])[:18]}")
+        if changed:
+            ans += " STATE-CHANGED " + ",".join(sorted(changed))
+        out.append(ans)
     return out
+
+
+def th(tag, msg):
+    """BIP340 tagged hash, computed here with hashlib only"""
+    t = hashlib.sha256(tag).digest()
+    return hashlib.sha256(t + t + msg).digest()
+
+
+def craft(args):
+    """signatures CONSTRUCTED from the BIP340 equations with chosen nonces (the signer never produces these):
+    (d, msg, [(name, k)]) -> [(name, x-only key, 64-byte signature)], plus one (name 'inf_result') whose
+    s·G − e·P is the point at infinity (s = e·d)"""
+    import buidl.ecc as E
+    d, msg, ks = args
+    Pt = d * E.G
+    xo = Pt.x.num.to_bytes(32, "big")
+    de = d if Pt.y.num % 2 == 0 else N - d
+    out = []
+    for name, k in ks:
+        k %= N
+        if k == 0:
+            continue
+        R = k * E.G
+        if R.y.num % 2:
+            k = N - k
+        rx = R.x.num.to_bytes(32, "big")
+        e = int.from_bytes(th(b"BIP0340/challenge", rx + xo + msg), "big") % N
+        out.append((name, xo, rx + ((k + e * de) % N).to_bytes(32, "big")))
+        if name == "k=1":
+            out.append(("inf_result", xo, rx + ((e * de) % N).to_bytes(32, "big")))
+    return out
+
+
+def x_of_sG(s):
+    """(x(s·G), s') with s' ∈ {s, n−s} such that s'·G has even y"""
+    import buidl.ecc as E
+    R = (s % N) * E.G
+    return R.x.num.to_bytes(32, "big"), (s % N if R.y.num % 2 == 0 else N - s % N)
 
 
 IMPL_ALIAS = {"spec_sign": "schnorr_sign", "spec_verify": "schnorr_verify"}
@@ -265,7 +348,14 @@ def p_cache(c):
     return got == want, got, want
 
 
-PREDICATES = {"sign_verify": p_sign_verify, "must_reject": p_must_reject, "bip340_vector": p_vector, "cache_transparent": p_cache}
+def p_must_accept(c):
+    """a signature constructed from the BIP340 equations (any nonce) is accepted"""
+    import buidl.ecc as E
+    ok = E.S256Point.parse(unx(c["pk"])).verify_schnorr(unx(c["msg"]), E.SchnorrSignature.parse(unx(c["sig"])))
+    return ok is True, ("1" if ok is True else REJECT), "1"
+
+
+PREDICATES = {"must_accept": p_must_accept, "sign_verify": p_sign_verify, "must_reject": p_must_reject, "bip340_vector": p_vector, "cache_transparent": p_cache}
 
 
 def eval_pred(kind, case=None):
@@ -393,7 +483,8 @@ def run(ctx):
             impl_seed[f"schnorr_sign {d} {xb(msg)} {xb(bytes(32))}"] = xb(sig)
         if idx % 3 == 0:
             lines.append(("bip340k", f"bip340k {d} {xb(msg)} {a}", True))
-        preds.append(("sign_verify", {"d": d, "msg": xb(msg), "aux": a}))
+        if idx % 3 != 2 or ctx.thorough:
+            preds.append(("sign_verify", {"d": d, "msg": xb(msg), "aux": a}))
         # verification catalogue on a subset (≈ 10 verifications per signature)
         if not (idx < ctx.n(24) or idx % 3 == 0):
             continue
@@ -482,6 +573,69 @@ def run(ctx):
         hists.append((["history:signed_object_wrong_first", "history:signed_object_right_first",
                        "history:parsed_object_right_first", "history:parsed_object_wrong_first"][v], steps))
 
+    # ---- signatures CONSTRUCTED with chosen nonces (completeness on inputs the signer cannot produce): k = 1, 2, 7, n-1,
+    #      d, n-d (R.x = P.x), 2d, d+1, sha256(m), random; all must be accepted; their bit flips must be rejected
+    jobs = []
+    for i in range(ctx.n(6)):
+        d = good[(i * 11 + 2) % len(good)][0][0] if i % 2 else rng.choice(SECRETS_B)
+        msg = rbytes(rng, 32)
+        ks = [("k=1", 1), ("k=2", 2), ("k=7", 7), ("k=n-1", N - 1), ("k=d", d), ("k=n-d", N - d), ("k=2d", 2 * d),
+              ("k=d+1", d + 1), ("k=sha256(m)", int.from_bytes(hashlib.sha256(msg).digest(), "big")),
+              ("k=random", rng.randrange(1, N))]
+        jobs.append((d, msg, ks))
+    for (d, msg, ks), res in zip(jobs, pmap(craft, jobs, workers=ctx.workers, chunksize=1)):
+        for name, xo, sg in res:
+            l = f"{xb(xo)} {xb(msg)} {xb(sg)}"
+            if name == "inf_result":
+                lines.append(("schnorr_verify:crafted:inf_result", "schnorr_verify " + l, True))
+                lines.append(("spec_verify:crafted:inf_result", "spec_verify " + l, True))
+                preds.append(("must_reject", {"pk": xb(xo), "msg": xb(msg), "sig": xb(sg), "why": "sG - eP is infinite"}))
+                continue
+            lines.append(("schnorr_verify:crafted:" + name, "schnorr_verify " + l, True))
+            lines.append(("spec_verify:crafted:" + name, "spec_verify " + l, True))
+            preds.append(("must_accept", {"pk": xb(xo), "msg": xb(msg), "sig": xb(sg), "why": "constructed with nonce " + name}))
+            for fb, what in ((rng.randrange(256), "R"), (256 + rng.randrange(256), "s")):
+                bad = flip(sg, fb)
+                lines.append((f"schnorr_verify:crafted_flip_{what}", f"schnorr_verify {xb(xo)} {xb(msg)} {xb(bad)}", True))
+                lines.append((f"spec_verify:crafted_flip_{what}", f"spec_verify {xb(xo)} {xb(msg)} {xb(bad)}", True))
+        # shared objects: the crafted signatures of one key verified in one process, each twice
+        hists.append(("history:crafted_nonces", [ver(xo, msg, sg) for name, xo, sg in res] +
+                      [ver(xo, msg, sg) for name, xo, sg in res[:4]]))
+
+    # ---- special keys that lift_x refuses: 00…00 (the code reads it as the point at infinity), x ≥ p, x not on the
+    #      curve — with signatures that WOULD satisfy s·G − e·P = R if the key were taken for infinity (R = x(s·G)),
+    #      and with a genuine signature of another key
+    sg_s = [1, 2, 3, N - 1, rng.randrange(1, N), rng.randrange(1, N)]
+    xs = pmap(x_of_sG, sg_s, workers=ctx.workers, chunksize=1)
+    forged = [x + s2.to_bytes(32, "big") for x, s2 in xs] + [x + (N - s2).to_bytes(32, "big") for x, s2 in xs[:2]]
+    special_keys = [("zero", bytes(32)), ("x=p", P.to_bytes(32, "big")), ("x=p+1", (P + 1).to_bytes(32, "big")),
+                    ("x=2^256-1", b"\xff" * 32), ("x_off_curve", non_residue_x(rng).to_bytes(32, "big")),
+                    ("x_off_curve", non_residue_x(rng).to_bytes(32, "big"))]
+    for name, key in special_keys:
+        msgs = [bytes(32), rbytes(rng, 32)]
+        for j, sg in enumerate(forged + [good[j_ % len(good)][1][0] for j_ in (0, 1)]):
+            for msg in (msgs if j < 3 else msgs[1:]):
+                l = f"{xb(key)} {xb(msg)} {xb(sg)}"
+                lines.append(("schnorr_verify:key_" + name, "schnorr_verify " + l, True))
+                lines.append(("spec_verify:key_" + name, "spec_verify " + l, True))
+                preds.append(("must_reject", {"pk": xb(key), "msg": xb(msg), "sig": xb(sg), "why": "key " + name}))
+        hists.append(("history:special_key", [ver(key, msgs[0], forged[0]), ver(key, msgs[1], forged[1]),
+                                              ver(key, msgs[0], forged[0])]))
+
+    # ---- verification must not modify its arguments: ONE PrivateKey object with an odd-Y point signs, its own `.point`
+    #      object then verifies tampered signatures (odd-y result, x mismatch, infinite result), a good one, and the key
+    #      signs again (same and new message); object state is compared after every step (see impl_history)
+    odd = [(c_, i_) for c_, i_ in good if i_[1] == 1] or good
+    jobs = [(c_[0], c_[1], [("k=1", 1)]) for c_, i_ in odd[: ctx.n(8)]]
+    for ((d, msg, aux), (sig, kpar, npar, xo, sec)), res in zip(odd[: ctx.n(8)], pmap(craft, jobs, workers=ctx.workers, chunksize=1)):
+        inf_sig = [sg for name, _, sg in res if name == "inf_result"]
+        tampered = [flip(sig, 256 + rng.randrange(256)) for _ in range(4)] + [flip(sig, rng.randrange(256))] + inf_sig
+        msg2 = rbytes(rng, 32)
+        steps = [sgn(d, msg, aux)] + [ver(xo, msg, tsg) for tsg in tampered[:3]] + [ver(xo, msg, sig)] + \
+                [ver(xo, msg, tsg) for tsg in tampered[3:]] + [ver(xo, msg2, sig), sgn(d, msg, aux), sgn(d, msg2, aux),
+                                                              ver(xo, msg, sig)]
+        hists.append(("history:odd_key_verify_then_sign", steps))
+
     # bad inputs to signing
     for d, msg, aux in [(0, bytes(32), bytes(32)), (N, bytes(32), bytes(32)), (N + 1, bytes(32), None), (5, bytes(31), bytes(32)),
                         (5, bytes(33), bytes(32)), (5, bytes(32), bytes(31)), (5, b"", None), (5, bytes(32), b"")]:
@@ -520,7 +674,8 @@ def run(ctx):
             rec.count(kind)
         rec.count(base + (":reject" if impl == REJECT else ":accept"))
     rec.count("verify_catalogue_signatures", vsig)
-    pres = pmap(eval_pred, preds, workers=ctx.workers, chunksize=8)
+    preds.sort(key=lambda kc: hash_order(repr(kc)))     # expensive and cheap predicates interleaved
+    pres = pmap(eval_pred, preds, workers=ctx.workers, chunksize=4)
     rec.note(f"timing: generation {t0 - ctx.t0:.1f}s, implementation {t1 - t0:.1f}s ({len(uniq)} requests), "
              f"model+spec {t2 - t1:.1f}s ({len(lines)} requests), predicates {time.time() - t2:.1f}s ({len(preds)})")
     for (kind, case), (ok, got, want) in zip(preds, pres):
